@@ -201,6 +201,7 @@ class VM:
         if stack:
             raise VMUnsupported("unclosed block")
         self.local_decls = {}
+        self.module_decls = {r.get("name") for r in self.top if r.get("operation") == "variable_decl"}
 
     def block(self, bid):
         if bid is None:
@@ -344,6 +345,16 @@ class VM:
                 raise VMRuntimeError(f"no binding for nonlocal {name}")
         else:
             f = frame
+            # declaration hoisting: a name is local iff this method declares it; otherwise the write goes to the
+            # nearest enclosing scope that declares it (what lian's scope analysis does); undeclared names
+            # (temporaries) are created locally
+            if not name.startswith("%") and not frame.is_module and name not in self.frame_locals(frame):
+                g = frame.parent
+                while g is not None:
+                    if (g.is_module and name in self.module_decls) or (not g.is_module and name in self.frame_locals(g)):
+                        f = g
+                        break
+                    g = g.parent
         f.vars[name] = value
         if stmt is not None:
             f.defsite[name] = stmt["stmt_id"]
